@@ -549,7 +549,7 @@ func (sv stringValue) ToString(b io.Writer, s px.FormatContext, g px.RDetect) {
 	val := string(sv)
 	switch f.FormatChar() {
 	case 's':
-		_, err := fmt.Fprintf(b, f.OrigFormat(), val)
+		_, err := fmt.Fprintf(b, goFormat(f), val)
 		if err != nil {
 			panic(err)
 		}
